@@ -233,6 +233,9 @@ class Tensor(object):
         return self._w(self.a.copy())
 
     def to(self, *a, **k):
+        tgt = a[0] if a else k.get("dtype")
+        if self.dtype is bool_ and isinstance(tgt, dtype_) and tgt.is_floating_point:
+            return Tensor(_ew(lambda b: z3.If(b, z3.RealVal(1), z3.RealVal(0)), 1)(self.a), tgt)
         return self
 
     def requires_grad_(self, v=True):
@@ -277,6 +280,9 @@ class Tensor(object):
 
     def flip(self, d):
         return self._w(np.flip(self.a, d))
+
+    def repeat_interleave(self, repeats, dim=None):
+        return self._w(np.repeat(self.a, repeats, axis=dim))
 
     # ---- indexing ----------------------------------------------------------------------------
     def _index(self, idx):
@@ -925,6 +931,12 @@ def sort(t, dim=-1):
 
 
 def sum_(t, dim=None, keepdim=False):
+    if isinstance(dim, (tuple, list)):
+        nd = t.a.ndim
+        r = t
+        for d in sorted([d_ % nd for d_ in dim], reverse=True):
+            r = sum_(r, dim=d, keepdim=keepdim)
+        return r
     if dim is None:
         tot = z3.RealVal(0)
         for e in t.a.reshape(-1):
@@ -1030,6 +1042,26 @@ class _Namespace(types.SimpleNamespace):
         raise OutOfSubset("torch.%s is not modelled in the ARR domain" % name)
 
 
+def diag_embed(t, dim1=-2, dim2=-1):
+    if (dim1, dim2) != (-2, -1):
+        raise OutOfSubset("diag_embed on other axes")
+    n = t.a.shape[-1]
+    out = np.empty(t.a.shape + (n,), dtype=object)
+    out[...] = z3.RealVal(0)
+    for idx in np.ndindex(t.a.shape):
+        out[idx + (idx[-1],)] = t.a[idx]
+    return Tensor(out, t.dtype)
+
+
+def eye(n, m=None, dtype=None, device=None):
+    m = n if m is None else m
+    out = np.empty((n, m), dtype=object)
+    for i in range(n):
+        for j in range(m):
+            out[i, j] = z3.RealVal(1 if i == j else 0)
+    return Tensor(out, dtype or float64)
+
+
 def make_torch():
     """the namespace that replaces the global `torch` of a module under contract"""
     t = _Namespace()
@@ -1038,8 +1070,9 @@ def make_torch():
     for nm, f in dict(zeros=zeros, ones=ones, empty=empty, zeros_like=zeros_like, tensor=tensor, numel=numel, cat=cat, stack=stack,
                       logical_and=logical_and, logical_or=logical_or, all=all_, any=any_, min=min_, max=max_, clamp=clamp,
                       searchsorted=searchsorted, gather=gather, sort=sort, sum=sum_, div=div, matmul=matmul, einsum=einsum, fmod=fmod,
-                      allclose=allclose).items():
+                      allclose=allclose, diag_embed=diag_embed, eye=eye).items():
         setattr(t, nm, f)
     t.linalg = _Namespace(solve=linalg_solve)
+    t.abs = lambda x: x.abs()
     t.is_tensor = lambda x: isinstance(x, Tensor)
     return t
